@@ -16,10 +16,14 @@ pub enum G {
     PI(String, String),
     CharRef(String, String),
     EntRef(String, String),
+    /// document type declaration: (name, text as written)
+    DocType(String, String),
 }
 
 const NAMES: &[&str] = &["a", "b", "c", "p:d"];
 const ATTRS: &[&str] = &["x", "y", "id"];
+/// general entities declared by the internal subset of some documents
+const DECLARED: &[(&str, &str)] = &[("e1", "v1"), ("e2", "two  words é")];
 const CH: &[&str] = &["a", "b", "é", "𝒳", "\u{301}", " ", "1", "z"];
 
 fn local(q: &str) -> &str {
@@ -34,6 +38,8 @@ pub struct CliGen<'a> {
     pub rng: &'a mut Rng,
     pub budget: usize,
     pub rich: bool,
+    /// the document declares the general entities e1 and e2
+    pub ents: bool,
 }
 
 impl<'a> CliGen<'a> {
@@ -79,7 +85,11 @@ impl<'a> CliGen<'a> {
                     G::CharRef(s.to_string(), c.to_string())
                 }
                 _ => {
-                    let (n, v) = *self.rng.pick(&[("amp", "&"), ("lt", "<"), ("gt", ">"), ("apos", "'"), ("quot", "\"")]);
+                    let (n, v) = if self.ents && self.rng.pct(70) {
+                        *self.rng.pick(DECLARED)
+                    } else {
+                        *self.rng.pick(&[("amp", "&"), ("lt", "<"), ("gt", ">"), ("apos", "'"), ("quot", "\"")])
+                    };
                     G::EntRef(n.to_string(), v.to_string())
                 }
             };
@@ -122,10 +132,21 @@ impl<'a> CliGen<'a> {
         if self.rng.pct(10) {
             pre.push(G::PI("t".into(), "x".into()));
         }
+        self.ents = self.rich && self.rng.pct(18);
         let root = match self.element(0) {
             G::El { name, attrs, kids, ns } => G::El { name, attrs, kids, ns },
             g => g,
         };
+        if self.ents {
+            if let G::El { name, .. } = &root {
+                let mut t = format!("<!DOCTYPE {} [", name);
+                for (n, v) in DECLARED {
+                    t.push_str(&format!("<!ENTITY {} \"{}\">", n, v));
+                }
+                t.push_str("]>");
+                pre.push(G::DocType(name.clone(), t));
+            }
+        }
         let mut post = vec![];
         if self.rng.pct(15) {
             post.push(G::Comment(self.word(1, 3)));
@@ -170,6 +191,7 @@ pub fn render(g: &G, root: bool, out: &mut String) {
         }
         G::CharRef(s, _) => out.push_str(s),
         G::EntRef(n, _) => out.push_str(&format!("&{};", n)),
+        G::DocType(_, t) => out.push_str(t),
     }
 }
 
@@ -199,6 +221,11 @@ pub fn canon_kids(kids: &[G], out: &mut String) {
             G::PI(t, d) => {
                 flush(&mut run, out);
                 out.push_str(&format!("P({:?},{:?})", t, d));
+            }
+            G::DocType(n, _) => {
+                flush(&mut run, out);
+                // DocumentType::name() reports the local part, like Attr::name()
+                out.push_str(&format!("D({:?})", local(n)));
             }
             G::El { name, attrs, kids, .. } => {
                 flush(&mut run, out);
@@ -488,7 +515,7 @@ pub fn gen_case(seed: u64, id: u64) -> Case {
     let budget = rng.range(2, 30);
     let gen_doc = |rng: &mut Rng, budget: usize| -> (Vec<G>, G, Vec<G>, String) {
         let (pre, root, post, decl) = {
-            let mut g = CliGen { rng, budget, rich: true };
+            let mut g = CliGen { rng, budget, rich: true, ents: false };
             g.document()
         };
         let mut doc = decl.clone();
@@ -785,7 +812,7 @@ pub fn gen_case(seed: u64, id: u64) -> Case {
         let n = rng.range(0, 3);
         let mut vb = 4usize;
         for _ in 0..n {
-            let mut g = CliGen { rng: &mut rng, budget: vb, rich: false };
+            let mut g = CliGen { rng: &mut rng, budget: vb, rich: false, ents: false };
             let k = match g.rng.below(10) {
                 0..=4 => G::Text(g.word(1, 4)),
                 5..=7 => {
@@ -914,7 +941,11 @@ pub fn gen_case(seed: u64, id: u64) -> Case {
         // xe on the document node: its children are replaced by the fragment
         let els = vkids.iter().filter(|k| matches!(k, G::El { .. })).count();
         let only_doc_level = vkids.iter().all(|k| matches!(k, G::El { .. } | G::Comment(_) | G::PI(..)));
-        if els == 1 && only_doc_level {
+        let has_doctype = pre.iter().any(|k| matches!(k, G::DocType(..)));
+        if has_doctype && only_doc_level {
+            // whether the document type is one of "the children" that xe replaces is not stated anywhere
+            expect_kind = "any".into();
+        } else if els == 1 && only_doc_level {
             let mut c = String::new();
             canon_kids(&vkids, &mut c);
             expect_kind = if indent { "canonws".into() } else { "canon".into() };
